@@ -18,7 +18,7 @@ LEVEL = "model_checking"
 
 
 def validate(ctx, trace, tag):
-    r = vlib.tlc("DedupTrace.tla", "DedupTrace.cfg", workers=1, timeout=3000, env={"TRACE": trace},
+    r = vlib.tlc("DedupTrace.tla", "DedupTrace.cfg", workers=1, timeout=12000, env={"TRACE": trace},
                  metadir=os.path.join(ctx.out, "tv-" + tag), heap="6g")
     if r.error or r.violated or r.printed("TOOLERR"):
         open(os.path.join(ctx.out, "tv-%s.log" % tag), "w").write(r.out)
@@ -43,7 +43,7 @@ def run(ctx):
     r = vlib.tlc("MCPacker.tla", "MCPackerUntyped.cfg", workers=2, timeout=600, metadir=os.path.join(ctx.out, "mc-untyped"))
     ctx.negative_control(r.violated == "NothingDropped", "model: untyped identity in the indexer must drop a blob")
     trace = os.path.join(ctx.out, "trace.ndjson")
-    args = ["dedup", "--seed", ctx.seed, "--pairs", 45 if q else 1000, "--collisions", 8 if q else 60, "--out", trace]
+    args = ["dedup", "--seed", ctx.seed, "--pairs", 45 if q else 4000, "--collisions", 8 if q else 60, "--out", trace]
     rc, out = vlib.vh(args, timeout=6000)
     if rc != 0:
         raise vlib.ToolError("dedup driver failed: " + out[-2000:])
